@@ -15,6 +15,8 @@ calls `IsAccepted` and `GetReplaceKey`.  The gRPC trace endpoint replaces first 
 with a witness (`uniform_refuted`), together with what does hold (`uniform_partial`,
 `grpcTraces_diverges_iff`, `grpcTraces_divergent_cells`).
 -/
+set_option linter.unusedSimpArgs false
+
 namespace Refinery.Props.C24
 open Refinery.Model.Auth
 
@@ -391,6 +393,16 @@ theorem grpcTraces_divergence_sends_sendKey (c : Cfg) (env : Env) (hh : env.Husk
   obtain ⟨hacc, hs, hr⟩ := (grpcTraces_diverges_iff c env hh k).mp h
   rw [grpcTraces_key c env hh, hr]
   simp [refHandle, hacc, sendKey_accepted c hs]
+
+/-! Non-vacuity of the table: concrete configurations, evaluated by the kernel. -/
+example : getReplaceKey { sendKey := "S", sendKeyMode := "listedonly", receiveKeys := ["L"] } "L" "" = some "S" := by decide
+example : getReplaceKey { sendKey := "S", sendKeyMode := "listedonly", receiveKeyIDs := ["I"] } "X" "I" = some "S" := by decide
+example : getReplaceKey { sendKey := "S", sendKeyMode := "listedonly", receiveKeys := ["L"] } "U" "" = some "U" := by decide
+example : getReplaceKey { sendKey := "S", sendKeyMode := "unlisted", receiveKeys := ["L"] } "" "" = none := by decide
+example : getReplaceKey { sendKey := "S", sendKeyMode := "missingonly" } "" "" = some "S" := by decide
+example : getReplaceKey { sendKey := "", sendKeyMode := "all" } "" "" = none := by decide
+example : isAccepted { acceptOnlyListed := true, receiveKeyIDs := ["I"] } "X" "I" = true := by decide
+example : isAccepted { acceptOnlyListed := true, receiveKeys := ["L"], sendKey := "S" } "U" "" = false := by decide
 
 /-! ## The endpoints against the documentation, and the divergent cells of gRPC traces -/
 
